@@ -94,6 +94,16 @@ func (rp *reporter) guard(idx int, where string, ctx func() any, fn func()) (fai
 		rp.mu.Lock()
 		rp.hung[where] = true
 		rp.mu.Unlock()
+		if strings.Contains(where, "VerifyProof") || strings.Contains(where, "VerifyRangeProof") {
+			// a verifier fed a hostile proof must come back with a verdict: normal is < 10 ms, the
+			// watchdog is four orders of magnitude above that
+			b, _ := json.Marshal(ctx())
+			if len(b) > 4000 {
+				b = b[:4000]
+			}
+			rp.viol("hang:"+where, idx, fmt.Sprintf("%s did not return within %s", where, watchdog), map[string]any{"input": string(b)})
+			return true
+		}
 		rp.r.Inconclusive("watchdog:" + where)
 		b, _ := json.Marshal(ctx())
 		if len(b) > 1500 {
@@ -243,6 +253,10 @@ type impl struct {
 	// proveBatch proves all keys into ONE proof set (what starknet_getStorageProof does for the keys
 	// of one trie) and returns the neutral form of the set plus a verifier over the native set
 	proveBatch func(keys []*felt.Felt) (nproof, func(root, k *felt.Felt) (felt.Felt, error), error)
+	// put writes (value zero: deletes) a key on the SAME trie object the proofs come from; rehash
+	// hashes (and, where the case says so, commits) it and makes the new root the impl's root
+	put    func(k, v *felt.Felt) error
+	rehash func() error
 }
 
 func openLegacy(c trieCase) (*impl, error) {
@@ -272,7 +286,22 @@ func openLegacy(c trieCase) (*impl, error) {
 		}
 	}
 	h := c.hashFn()
-	return &impl{
+	var im *impl
+	im = &impl{
+		put: func(k, v *felt.Felt) error { _, err := tr.Put(k, v); return err },
+		rehash: func() error {
+			r, err := tr.Hash()
+			if err != nil {
+				return err
+			}
+			if c.Commit {
+				if err := tr.Commit(); err != nil {
+					return err
+				}
+			}
+			im.root = r
+			return nil
+		},
 		name: "legacy", root: root,
 		prove: func(k *felt.Felt) (nproof, func(root, k *felt.Felt) (felt.Felt, error), error) {
 			ps := trie.NewProofNodeSet()
@@ -313,7 +342,8 @@ func openLegacy(c trieCase) (*impl, error) {
 			}
 			return trie.VerifyRangeProof(root, first, keys, vals, ps)
 		},
-	}, nil
+	}
+	return im, nil
 }
 
 func openTrie2(c trieCase) (*impl, error) {
@@ -328,7 +358,17 @@ func openTrie2(c trieCase) (*impl, error) {
 	if err != nil {
 		return nil, err
 	}
-	return &impl{
+	var im *impl
+	im = &impl{
+		put: func(k, v *felt.Felt) error { return tr.Update(k, v) },
+		rehash: func() error {
+			r, err := tr.Hash()
+			if err != nil {
+				return err
+			}
+			im.root = r
+			return nil
+		},
 		name: "trie2", root: root,
 		prove: func(k *felt.Felt) (nproof, func(root, k *felt.Felt) (felt.Felt, error), error) {
 			ps := trie2.NewProofNodeSet()
@@ -377,7 +417,8 @@ func openTrie2(c trieCase) (*impl, error) {
 			}
 			return trie2.VerifyRangeProof(root, first, keys, vals, ps)
 		},
-	}, nil
+	}
+	return im, nil
 }
 
 // ---------------------------------------------------------------- membership: completeness
@@ -699,6 +740,21 @@ func memTampers(rng *rand.Rand, c trieCase, p nproof, k *big.Int, root *felt.Fel
 			variants("edge-turned-into-binary@"+role, i, func(n *pnode) {
 				*n = pnode{Bin: true, L: n.Child, R: *new(felt.Felt).SetBigInt(n.Path)}
 			})
+		}
+		// the entry replaced by a degenerate edge: no path bits at all, pointing at the entry's own hash
+		// (or at one of its children) - as a hash reference and typed as a value
+		own := p[i].Key
+		for _, valChild := range []bool{false, true} {
+			q := p.clone()
+			q[i].N = pnode{Len: 0, Path: new(big.Int), Child: own, ValChild: valChild}
+			add(fmt.Sprintf("node-replaced-by-empty-path-edge-to-itself(value-typed-child=%v)@%s", valChild, role), q)
+			q = p.clone()
+			ch := n.Child
+			if n.Bin {
+				ch = n.L
+			}
+			q[i].N = pnode{Len: 0, Path: new(big.Int), Child: ch, ValChild: valChild}
+			add(fmt.Sprintf("node-replaced-by-empty-path-edge-to-its-child(value-typed-child=%v)@%s", valChild, role), q)
 		}
 		// node removed
 		q := append(p[:i:i].clone(), p[i+1:].clone()...)
